@@ -50,8 +50,10 @@ fn strategy(tier: Tier) -> BoxedStrategy<Case> {
         dfac: 3,
     };
     (
-        taskset_strategy(g),
-        0usize..4,
+        // a third of the task sets heavily loaded (long busy windows, maxima at offsets A > 0)
+        prop_oneof![2 => taskset_strategy(g), 1 => taskset_strategy_u(g, 850, 1020)],
+        // index 4 = the task that suffers most interference (resolved in the map below)
+        prop_oneof![3 => 0usize..4, 1 => Just(4usize)],
         analysis_strategy(),
         prop_oneof![2 => Just(0u64), 3 => 0u64..12],
         prop_oneof![
@@ -66,7 +68,12 @@ fn strategy(tier: Tier) -> BoxedStrategy<Case> {
         prop_oneof![3 => Just(vec![]), 1 => proptest::collection::vec(prop_oneof![1 => Just(0u64), 2 => 1u64..10], 4)],
     )
         .prop_map(|(tasks, tua, analysis, blocking, limit, wrap, np_boost)| {
-            let tua = tua % tasks.len();
+            let n = tasks.len();
+            let tua = if tua == 4 {
+                (0..n).max_by_key(|i| if analysis.is_edf() { (tasks[*i].deadline, *i) } else { (tasks[*i].prio as u64, *i) }).unwrap_or(0)
+            } else {
+                tua % n
+            };
             Case { tasks, tua, analysis, blocking, limit, wrap, np_boost }
         })
         .boxed()
@@ -575,7 +582,7 @@ pub fn def() -> PropertyDef {
             "RBFs are black boxes here (steps/values are C10/C11/C16's business); direct ArrivalCurvePrefix models are excluded (known finding C11/acp-steps-leading-zero)".into(),
         ],
         subchecks: vec![
-            subcheck("equations", (1500, 60_000), strategy, check).with_decoder(decode, check),
+            subcheck("equations", (5000, 60_000), strategy, check).with_decoder(decode, check),
             subcheck("scale-equivariance", (1500, 50_000), scale_strategy, check_scale),
             subcheck("slow-convergence", (40, 1500), slow_strategy, check_slow),
         ],
